@@ -214,6 +214,17 @@ type KT struct {
 	B int `json:"-"`
 }
 
+// a comparable struct with json tags that keep its JSON faithful (renamed members, members
+// left out when zero): as a key type it must round-trip - a member that is absent from the text
+// of one key must come back zero whatever the other keys of the map hold
+type KO struct {
+	Name NStr    `json:"name"`
+	Rev  int     `json:"rev,omitempty"`
+	On   bool    `json:",omitempty"`
+	W    float64 `json:"w,omitempty"`
+	Tag  string  `json:"tag,omitempty"`
+}
+
 // a comparable struct used as a map key type (keys are written as plain JSON)
 type KS struct {
 	A int
@@ -224,7 +235,7 @@ var fixedStructs = []struct {
 	rt  reflect.Type
 	reg bool
 }{{reflect.TypeOf(Empty{}), true}, {reflect.TypeOf(Node{}), true}, {reflect.TypeOf(Unreg{}), false}, {reflect.TypeOf(Rec{}), true},
-	{reflect.TypeOf(Holder{}), true}, {reflect.TypeOf(Inner{}), true}, {reflect.TypeOf(Outer{}), true}, {reflect.TypeOf(KS{}), true}, {reflect.TypeOf(OnlyM{}), true}, {reflect.TypeOf(KT{}), true}}
+	{reflect.TypeOf(Holder{}), true}, {reflect.TypeOf(Inner{}), true}, {reflect.TypeOf(Outer{}), true}, {reflect.TypeOf(KS{}), true}, {reflect.TypeOf(OnlyM{}), true}, {reflect.TypeOf(KT{}), true}, {reflect.TypeOf(KO{}), true}}
 
 // container types registered under a name (so that they may be element types)
 var regContainers = []struct {
@@ -282,6 +293,7 @@ func init() {
 	must(compose.RegisterSerializableType[KS]("c12_s1007"))
 	must(compose.RegisterSerializableType[OnlyM]("c12_s1008"))
 	must(compose.RegisterSerializableType[KT]("c12_s1009"))
+	must(compose.RegisterSerializableType[KO]("c12_s1010"))
 	must(compose.RegisterSerializableType[NLvl]("c12_n10"))
 	must(compose.RegisterSerializableType[NTk]("c12_n11"))
 	must(compose.RegisterSerializableType[alt.NInt]("c12_n12"))
@@ -530,7 +542,7 @@ func (t *Ty) keyable() bool {
 	case "array":
 		return t.E.keyable()
 	case "struct":
-		return t.N == fixedBase+7
+		return t.N == fixedBase+7 || t.N == fixedBase+10
 	}
 	return false
 }
@@ -1352,6 +1364,8 @@ func coqFixed() string {
 		"  Case (ckpt_registry ++ regx0 ++ rx)%list (ckpt_env ++ ex ++ env0)%list w v o.\n"
 }
 
+const decodeRepeats = 4
+
 type memStore struct{ m map[string][]byte }
 
 func (s *memStore) Get(_ context.Context, id string) ([]byte, bool, error) {
@@ -1677,10 +1691,17 @@ func runCase(c *Case) (res lib.Result) {
 			return
 		}
 		o.Bytes = len(data)
-		out, err = compose.VerifC12Unmarshal(data)
-		if err != nil {
-			o = Obs{Class: "dec-error", Msg: err.Error(), Bytes: len(data)}
-			return
+		// the decoder walks Go maps (random order): the bytes are read several times and every
+		// reading must restore the value; the first reading that does not is the observation
+		for rep := 0; rep < decodeRepeats; rep++ {
+			out, err = compose.VerifC12Unmarshal(data)
+			if err != nil {
+				o = Obs{Class: "dec-error", Msg: err.Error(), Bytes: len(data)}
+				return
+			}
+			if c.TopNil || out == nil || !equiv(rv, reflect.ValueOf(out), eqExact) {
+				break
+			}
 		}
 		o.Class = "ok"
 	})
@@ -1891,7 +1912,7 @@ func (g *gen) keyType() *Ty {
 			// a registered comparable struct type, a registered array type as key type (the key
 			// is written as its plain JSON)
 			if r.Chance(1, 2) {
-				return &Ty{K: "struct", N: fixedBase + 7}
+				return &Ty{K: "struct", N: fixedBase + []int{7, 10, 10}[r.Intn(3)]}
 			}
 			return &Ty{K: "array", N: 2, E: &Ty{K: "base", B: "int"}}
 		}
@@ -2216,6 +2237,56 @@ func (g *gen) lit(base string, isKey bool) *Lit {
 	return &Lit{Z: sp(z.String())}
 }
 
+func cloneV(v *V) *V {
+	b, _ := json.Marshal(v)
+	var c V
+	_ = json.Unmarshal(b, &c)
+	return &c
+}
+
+// varyKey: members of a composite key other than the first are zero in about half of the
+// keys (a struct member that is zero may be left out of the key's JSON text); one member of a
+// cloned key gets a fresh value
+func (g *gen) varyKey(t *Ty, k *V) {
+	var ts []*Ty
+	var vs []*V
+	switch t.K {
+	case "struct":
+		ts, vs = g.fieldTypes(t), k.F
+	case "array":
+		for range k.E {
+			ts = append(ts, t.E)
+		}
+		vs = k.E
+	}
+	for i := range vs {
+		if i >= len(ts) || ts[i].K != "base" && ts[i].K != "named" || ts[i].K == "named" && ts[i].N == timeNamed {
+			continue
+		}
+		switch {
+		case i > 0 && g.r.Chance(1, 2):
+			vs[i].L = zeroLit(baseOfTy(ts[i]))
+		case g.r.Chance(1, 3):
+			vs[i].L = g.litOf(ts[i], true)
+		}
+	}
+}
+
+func zeroLit(base string) *Lit {
+	switch base {
+	case "bool":
+		b := false
+		return &Lit{B: &b}
+	case "string":
+		return &Lit{S: sp("")}
+	case "float32", "float64":
+		return &Lit{F: sp("0")}
+	case "complex64", "complex128":
+		return &Lit{C: &[2]string{"0", "0"}}
+	}
+	return &Lit{Z: sp("0")}
+}
+
 func baseOfTy(t *Ty) string {
 	if t.K == "named" {
 		ni, _ := namedInfoOf(t.N)
@@ -2312,7 +2383,14 @@ func (g *gen) value(t *Ty, depth int) *V {
 		}
 		v := &V{KV: [][2]*V{}}
 		seen := map[string]bool{}
-		for n := g.count(3); n > 0; n-- {
+		n := g.count(3)
+		composite := t.Key.K == "struct" || t.Key.K == "array"
+		if composite && g.budget > 0 {
+			// several entries: what one key's text leaves out must not come from another key,
+			// in whatever order the decoder meets them
+			n = 2 + r.Intn(7)
+		}
+		for ; n > 0; n-- {
 			var k *V
 			switch t.Key.K {
 			case "any":
@@ -2324,7 +2402,13 @@ func (g *gen) value(t *Ty, depth int) *V {
 				k = &V{L: g.litOf(t.Key, true)}
 			default: // struct / array keys
 				g.budget++
-				k = g.value(t.Key, 1)
+				if len(v.KV) > 0 && r.Chance(1, 3) {
+					// a key that differs from an earlier one in one member only
+					k = cloneV(v.KV[r.Intn(len(v.KV))][0])
+				} else {
+					k = g.value(t.Key, 1)
+				}
+				g.varyKey(t.Key, k)
 			}
 			kb, _ := json.Marshal(k)
 			ks := string(kb)
